@@ -10,6 +10,7 @@ import (
 	"net"
 	"net/http"
 	"net/http/httptest"
+	"runtime"
 	"sort"
 	"strings"
 	"sync"
@@ -308,6 +309,15 @@ func (r *Req) httpRequest() (*http.Request, error) {
 	return req, nil
 }
 
+// served does what net/http does for a request it served: the request's context is cancelled when the handler returned
+// (whatever the handler tied to the lifetime of the request is released then).
+func served(req *http.Request, h http.Handler, rec http.ResponseWriter) {
+	ctx, cancel := context.WithCancel(req.Context())
+	h.ServeHTTP(rec, req.WithContext(ctx))
+	cancel()
+	runtime.Gosched()
+}
+
 func (a *Apps) DoDecision(r *Req) *Resp {
 	req, err := r.httpRequest()
 	if err != nil {
@@ -315,7 +325,7 @@ func (a *Apps) DoDecision(r *Req) *Resp {
 	}
 
 	rec := httptest.NewRecorder()
-	a.Decision.ServeHTTP(rec, req)
+	served(req, a.Decision, rec)
 
 	accepted := a.Conf.Serve.Decision.Respond.With.Accepted.Code
 	if accepted == 0 {
@@ -334,7 +344,7 @@ func (a *Apps) DoProxy(r *Req) *Resp {
 	a.Upstream.Take()
 
 	rec := httptest.NewRecorder()
-	a.Proxy.ServeHTTP(rec, req)
+	served(req, a.Proxy, rec)
 
 	ups := a.Upstream.Take()
 
